@@ -50,6 +50,7 @@ func checkC02(ctx *Ctx, r *Report) {
 	c02PythonModuleNames(ctx, r)
 	c02JavaPackageSegments(ctx, r)
 	c16FourthHunt(ctx, r)                 // a union branch referring to a constant: the Go builder does not type-check
+	c11SixthRound(ctx, r)                 // objects that end up with one identifier; modules hidden by the locals of the generated methods
 	c01GoTemplateVariablesEscaped(ctx, r) // a union branch called Raw / Json: the decoders do not compile
 	c06FourthHunt(ctx, r)                 // enum members named like other declarations; builders of named optionals
 	c09FifthHunt(ctx, r)                  // Python methods shadowing imported modules; integer bounds that overflow int64 in the generated Go
